@@ -51,9 +51,59 @@ def view(index: RepoIndex, func: Func, cross: Tuple[str, ...] = (),
         node = ast.fix_missing_locations(ex)
     node = scalar_replace_records(index, unpack_known_tuples(node))
     node = project_agent_fields(index, node)
+    node = distribute_isinstance(node)
     out = (node, walk_function(node), inlined)
     _CACHE[key] = out
     return out
+
+
+def distribute_isinstance(fn: ast.FunctionDef) -> ast.FunctionDef:
+    """`isinstance(None if C else X, T)` (an Optional-returning lookup helper read where it is
+    called) is `not C and isinstance(X, T)`: the type test goes into the alternatives,
+    `isinstance(None, T)` is False for the classes of the package, and an alternative that
+    is a constant truth value turns the conditional into a conjunction / disjunction"""
+    import copy
+
+    def dist(c: ast.Call) -> ast.AST:
+        a = c.args[0]
+        if isinstance(a, ast.IfExp):
+            def branch(x):
+                n = copy.copy(c)
+                n.args = [x] + list(c.args[1:])
+                return dist(n)
+            l, r = branch(a.body), branch(a.orelse)
+            neg = ast.UnaryOp(ast.Not(), copy.deepcopy(a.test))
+            if isinstance(l, ast.Constant) and l.value is False:
+                return r if isinstance(r, ast.Constant) and r.value is False else \
+                    ast.BoolOp(ast.And(), [neg, r])
+            if isinstance(r, ast.Constant) and r.value is False:
+                return ast.BoolOp(ast.And(), [copy.deepcopy(a.test), l])
+            return ast.IfExp(copy.deepcopy(a.test), l, r)
+        if isinstance(a, ast.Constant) and a.value is None and \
+                'NoneType' not in ast.unparse(c.args[1]) and \
+                'object' not in ast.unparse(c.args[1]).split('.')[-1:]:
+            return ast.Constant(False)
+        return c
+
+    class T(ast.NodeTransformer):
+        changed = False
+
+        def visit_Call(self, c: ast.Call):
+            c = self.generic_visit(c)
+            if isinstance(c.func, ast.Name) and c.func.id == 'isinstance' and \
+                    len(c.args) == 2 and not c.keywords and isinstance(c.args[0], ast.IfExp):
+                out = dist(c)
+                if out is not c:
+                    self.changed = True
+                    return ast.copy_location(out, c)
+            return c
+    if not any(isinstance(n, ast.Call) and isinstance(n.func, ast.Name)
+               and n.func.id == 'isinstance' and n.args and isinstance(n.args[0], ast.IfExp)
+               for n in ast.walk(fn)):
+        return fn
+    t = T()
+    new = t.visit(copy.deepcopy(fn))
+    return ast.fix_missing_locations(new) if t.changed else fn
 
 
 def splice_star_args(fn: ast.FunctionDef) -> ast.FunctionDef:
@@ -335,7 +385,7 @@ def component_node(index: RepoIndex, func: Func) -> Tuple[ast.FunctionDef, list]
     if ast.dump(ex) != ast.dump(node):
         node = ex
     from .normalise import eliminate_none_sentinel
-    node = eliminate_none_sentinel(node)
+    node = distribute_isinstance(eliminate_none_sentinel(node))
     _CACHE[key] = (node, None, inlined)
     return node, inlined
 
